@@ -39,7 +39,7 @@ type Inst struct {
 // It is read off the SSA of the current source on every run; a mismatch is confirmed by the native probe test Probe
 // (a Go test of package ProbePkg, injected by overlay) before it is reported.
 type WiringFact struct {
-	Kind       string // "" = concrete type of an interface argument; "calls" = Fn calls Callee; "nocall" = Fn never calls Callee
+	Kind       string // "" = concrete type of an interface argument; "param" = the argument is Fn's own parameter Want, passed through unchanged; "calls" = Fn calls Callee; "nocall" = Fn never calls Callee
 	Fn, Callee string
 	Arg        int
 	Want       string
@@ -355,7 +355,11 @@ func (e *Env) RunProperty(id string) int {
 		}
 		ok := true
 		for _, st := range sites {
-			if st.Type != wf.Want {
+			got := st.Type
+			if wf.Kind == "param" {
+				got = st.Param
+			}
+			if got != wf.Want {
 				ok = false
 				fmt.Printf("[%s] wiring: %s passes %q (%s) to %s argument %d, expected %s\n", id, st.Pos, st.Type, st.Desc, wf.Callee, wf.Arg, wf.Want)
 			}
@@ -751,6 +755,8 @@ func wiringNotes(spec *PropSpec) []string {
 		switch wf.Kind {
 		case "calls", "nocall":
 			out = append(out, fmt.Sprintf("wiring fact read off the SSA of the current source on every run: %s %s %s - %s", wf.Fn, map[string]string{"calls": "calls", "nocall": "never calls"}[wf.Kind], wf.Callee, wf.Why))
+		case "param":
+			out = append(out, fmt.Sprintf("wiring fact read off the SSA of the current source on every run (mismatch confirmed by native probe %s): %s hands its own parameter %s unchanged to %s as argument %d - %s", wf.ProbeTest, wf.Fn, wf.Want, wf.Callee, wf.Arg, wf.Why))
 		default:
 			out = append(out, fmt.Sprintf("wiring fact read off the SSA of the current source on every run (mismatch confirmed by native probe %s): in %s every call of %s passes %s as argument %d - %s", wf.ProbeTest, wf.Fn, wf.Callee, wf.Want, wf.Arg, wf.Why))
 		}
